@@ -901,6 +901,15 @@ def body_api(c):
                 require(msg is None, 'operand_changed', 'tjm: %s' % msg)
             op_ = ode.tjm_dissipative_operator(L, jumps, [0.1], 0.05)
             require_consistent(op_, 'returned_inconsistent')
+            # the jump step called directly, with a rank cap below the state's ranks: the argument must keep its value
+            mr = dense.max_ranks([2] * L)
+            st_ = TT(dense.qr_right([rng.standard_normal((mr[i], 2, 1, mr[i + 1])) for i in range(L)]))
+            st_ = (1 / st_.norm()) * st_
+            sn = build.snapshot(st_)
+            out = ode.tjm_jump_process_tdvp(H, st_, jumps, [0.1], 0.05, threshold=[1e-12, 1e-2][c['seed'] % 2], max_rank=[1, 50][(c['seed'] // 2) % 2])
+            require_consistent(out, 'returned_inconsistent')
+            msg = build.unchanged(st_, sn)
+            require(msg is None, 'operand_changed', 'tjm_jump_process_tdvp: state argument %s' % msg)
         elif w == 'amuset_extras':
             m = 8
             x = rng.uniform(-1, 1, (2, m))
